@@ -520,6 +520,94 @@ pub fn main(args: &[String]) -> i32 {
     0
 }
 
+/// C02/C05/C10/C19 story "delete while the first write is in flight": a fresh key is inserted, the
+/// write-behind worker has its batch in hand (held there by a stall at its scheduling points, as an
+/// involuntary preemption would) when the key is deleted; then flush, clean close, reopen.  Judged as a
+/// sequential history by TraceStore.tla: the deleted keys stay deleted, the kept key keeps its value.
+pub fn inflightstory(args: &[String]) -> i32 {
+    let o = Opts::parse(args);
+    let dir = o.get("dir").unwrap_or("/dev/shm").to_string();
+    std::fs::create_dir_all(&dir).ok();
+    crate::obs::set_cpus(o.num("cpus", 2));
+    crate::util::watchdog::start(o.num("watchdog", 60));
+    let rounds: usize = o.num("rounds", 4);
+    let cfg = Cfg { pers: true, ttl: false, cache: o.num("cache", 0u32) == 1, fmt: 3, lim: -1, blocks: 64 };
+    let cfgj = |c: &Cfg| json!({"pers": c.pers, "ttl": c.ttl, "cache": c.cache, "fmt": c.fmt, "lim": c.lim});
+    let now = 1_000 * E9;
+    feoxdb::verif::set_now(now);
+    let path = format!("{dir}/inflight_{}.feox", std::process::id());
+    let _ = std::fs::remove_file(&path);
+    let mut keys: Vec<Vec<u8>> = vec![b"a-keep".to_vec()];
+    for i in 0..rounds { keys.push(format!("b-gone{i}").into_bytes()); }
+    let store = Arc::new(build_store(&cfg, &path).expect("build store"));
+    let mut vals = ValTable::new();
+    let mut evs: Vec<Value> = Vec::new();
+    evs.push(json!({"e": "reset", "cfg": cfgj(&cfg), "now": limbs(now), "overhead": FeoxStore::verif_record_overhead(),
+        "klen": keys.iter().map(|k| k.len()).collect::<Vec<_>>(), "post": post_state(&store, &keys)}));
+    let step = |store: &FeoxStore, vals: &mut ValTable, evs: &mut Vec<Value>, op: &str, k: usize, val: &[u8]| {
+        let mut ev = call_event(op, k);
+        match op {
+            "insert" => {
+                let r = store.insert(&keys[k - 1], val);
+                ev["v"] = vals.val(val);
+                ev["res"] = match &r { Ok(b) => res("bool", *b as i64, noval(), 0), Err(e) => res_err(e) };
+            }
+            "delete" => {
+                let r = store.delete(&keys[k - 1]);
+                ev["res"] = match &r { Ok(()) => res("unit", 0, noval(), 0), Err(e) => res_err(e) };
+            }
+            "get" => {
+                let r = store.get(&keys[k - 1]);
+                ev["res"] = match &r { Ok(v) => res("val", 0, vals.val(v), 0), Err(e) => res_err(e) };
+            }
+            _ => {
+                let r = store.flush();
+                ev["res"] = match &r { Ok(()) => res("unit", 0, noval(), 0), Err(e) => res_err(e) };
+            }
+        }
+        ev["now"] = json!(limbs(now));
+        ev["post"] = post_state(store, &keys);
+        evs.push(ev);
+    };
+    step(&store, &mut vals, &mut evs, "insert", 1, b"kept-value");
+    step(&store, &mut vals, &mut evs, "flush", 1, b"");
+    for i in 0..rounds {
+        let k = i + 2;
+        let val = vec![b'g'; 200 + 3000 * (i % 2)];
+        step(&store, &mut vals, &mut evs, "insert", k, &val);
+        // the worker is preempted in the middle of its batch (half of its scheduling points hold it 30 ms)
+        feoxdb::verif::sched::set_random_stall(1, 30_000);
+        let s2 = store.clone();
+        let flusher = std::thread::spawn(move || s2.flush());
+        std::thread::sleep(std::time::Duration::from_millis(6));
+        feoxdb::verif::sched::set_random_stall(0, 0);      // (the deleting call itself is not held up)
+        step(&store, &mut vals, &mut evs, "delete", k, b"");
+        // the concurrent flush has no logical effect: it is recorded where it returned
+        let r = flusher.join().expect("flusher");
+        let mut ev = call_event("flush", 1);
+        ev["res"] = match &r { Ok(()) => res("unit", 0, noval(), 0), Err(e) => res_err(e) };
+        ev["now"] = json!(limbs(now));
+        ev["post"] = post_state(&store, &keys);
+        evs.push(ev);
+        step(&store, &mut vals, &mut evs, "flush", 1, b"");
+    }
+    match Arc::try_unwrap(store) { Ok(s) => drop(s), Err(_) => panic!("store still shared") }
+    match build_store(&cfg, &path) {
+        Ok(s) => {
+            evs.push(json!({"e": "reopen", "cfg": cfgj(&cfg), "now": limbs(now), "post": post_state(&s, &keys)}));
+            for k in 1..=keys.len() { step(&s, &mut vals, &mut evs, "get", k, b""); }
+            std::mem::forget(s);
+        }
+        Err(e) => evs.push(json!({"e": "reopen_fail", "err": crate::util::err_name(&e)})),
+    }
+    let mut out = std::io::BufWriter::new(std::fs::File::create(o.req("out")).expect("create out"));
+    for e in &evs { writeln!(out, "{}", e).unwrap(); }
+    out.flush().unwrap();
+    let _ = std::fs::remove_file(&path);
+    println!("{}", json!({"events": evs.len(), "rounds": rounds}));
+    0
+}
+
 thread_local!(static STORY_VICTIM_ALLOCATED: std::cell::Cell<bool> = const { std::cell::Cell::new(false) });
 
 /// C09/C02 story "failed batch next to an acknowledged one": a retired two-block extent [s, s+1] leaves
